@@ -379,8 +379,20 @@ def r08_9(prog, rep):
                         names = ["builtins.BaseException"]
                     else:
                         names = [prog.resolve_expr_name(mod, e) or "?" for e in (h.type.elts if isinstance(h.type, _ast.Tuple) else [h.type])]
-                    reraises = len(h.body) == 1 and isinstance(h.body[0], _ast.Raise) and (h.body[0].exc is None or (isinstance(h.body[0].exc, _ast.Name) and h.name == h.body[0].exc.id))
-                    names_body.append((names, "reraise" if reraises else "handler"))
+                    is_reraise = lambda st: isinstance(st, _ast.Raise) and (st.exc is None or (isinstance(st.exc, _ast.Name) and h.name == st.exc.id))  # noqa: E731
+                    reraises = len(h.body) == 1 and is_reraise(h.body[0])
+                    kind = "reraise" if reraises else "handler"
+                    # `except Exception as e: if isinstance(e, (RecursionError, MemoryError)): raise` -- the same two clauses in one
+                    st0 = h.body[0] if h.body else None
+                    if (not reraises and h.name and isinstance(st0, _ast.If) and len(st0.body) == 1 and is_reraise(st0.body[0]) and isinstance(st0.test, _ast.Call)
+                            and prog.resolve_expr_name(mod, st0.test.func) == "builtins.isinstance" and len(st0.test.args) == 2
+                            and isinstance(st0.test.args[0], _ast.Name) and st0.test.args[0].id == h.name):  # fmt: skip
+                        cls = st0.test.args[1]
+                        if isinstance(cls, _ast.Name) and cls.id in mod.assigns and isinstance(mod.assigns[cls.id], _ast.Tuple):
+                            cls = mod.assigns[cls.id]
+                        through = [prog.resolve_expr_name(mod, e) or "?" for e in (cls.elts if isinstance(cls, _ast.Tuple) else [cls])]
+                        kind = ("reraise-for", through)
+                    names_body.append((names, kind))
             if not names_body:
                 continue
             # only blocks that contain a call of a member routine (a call of the loop variable / an element of the routines)
@@ -390,7 +402,7 @@ def r08_9(prog, rep):
             guarded_sites += 1
             for exc in ("builtins.RecursionError", "builtins.MemoryError"):
                 first = next(((names, kind) for names, kind in names_body if oracle.exc_covered(exc, names)), None)
-                if first is not None and first[1] != "reraise":
+                if first is not None and first[1] != "reraise" and not (isinstance(first[1], tuple) and first[1][0] == "reraise-for" and oracle.exc_covered(exc, first[1][1])):
                     swallowed.append(exc.rsplit(".", 1)[1])
         n += 1
         rep.check(guarded_sites > 0 and not swallowed, "R08.9", row.routine.qualname, f.loc, "running out of stack or memory in a member is not taken for a rejection (re-raised before the catch-all)", f"the union swallows {sorted(set(swallowed))} together with the members' rejections and goes on to the next member: every level of a recursive union then retries its remaining members at the bottom of the stack (2^depth attempts: unmarshal(J, 'a') for J = 'dict[str, J] | list[J] | int | None' never returns), and a valid value that is merely deep is reported as 'not one of types'", detail="resource-errors-propagate")
